@@ -1,6 +1,7 @@
 #!/usr/bin/env python3
 """Apply every benign variant to /repo in turn (undoing it straight afterwards) and run all quick checks: every check must stay silent."""
 import glob, json, os, subprocess, sys
+ROOT = os.path.dirname(os.path.dirname(os.path.abspath(__file__)))
 import concurrent.futures as cf
 ALL = ["C%02d" % i for i in range(1, 21)]
 st = subprocess.run(["git", "-C", "/repo", "status", "--porcelain"], capture_output=True, text=True).stdout.strip()
@@ -8,7 +9,7 @@ if st:
     print("refusing: /repo not clean"); sys.exit(3)
 mat = {}
 only = sys.argv[1:]
-for p in sorted(glob.glob("/verif/selftest/benign/*.patch")):
+for p in sorted(glob.glob(ROOT + "/selftest/benign/*.patch")):
     name = os.path.basename(p)[:-6]
     if only and not any(name.startswith(o) for o in only):
         continue
@@ -17,7 +18,7 @@ for p in sorted(glob.glob("/verif/selftest/benign/*.patch")):
     row = {}
     try:
         def one(pid):
-            return pid, subprocess.run(["/verif/check", pid, "quick"], capture_output=True, text=True, cwd="/verif",
+            return pid, subprocess.run([ROOT + "/check", pid, "quick"], capture_output=True, text=True, cwd=ROOT,
                                        env=dict(os.environ, PCV_EVIDENCE_DIR="/tmp/pcv-evidence-scratch"))
         first = [one(ALL[0])]
         with cf.ThreadPoolExecutor(10) as ex:
@@ -34,8 +35,8 @@ for p in sorted(glob.glob("/verif/selftest/benign/*.patch")):
     for k, v in row.items():
         print("    ", k, v[:2])
 if only:
-    old = json.load(open("/verif/selftest/benign/matrix.json"))
+    old = json.load(open(ROOT + "/selftest/benign/matrix.json"))
     old.update(mat)
     mat = old
 if True:
-    json.dump(mat, open("/verif/selftest/benign/matrix.json", "w"), indent=1, sort_keys=True)
+    json.dump(mat, open(ROOT + "/selftest/benign/matrix.json", "w"), indent=1, sort_keys=True)
